@@ -146,7 +146,7 @@ def run_guarddep(facts, rep, files):
         it = facts.items[p]
         if it["file"] not in files:
             continue
-        body = facts.hir[p]
+        body = facts.inlined(p)      # word-splitting helpers are read in place
         casts = [x for x in walk(body) if x.get("k") == "Cast" and facts.ty(x["e"]).lstrip("&") in ("f64", "f32")
                  and facts.ty(x) in ("u64", "usize", "u128", "i64", "u32")]
         if not casts:
@@ -179,7 +179,7 @@ def run_guarddep(facts, rep, files):
         for c, g in pairs:
             interest[id(c)] = lambda n: n["e"]
             interest[id(g)] = lambda n: n["c"]
-        _, _, _, _, _, fl = r_depend.analyse(facts, p, all_params=True, interest=interest)
+        _, _, _, _, _, fl = r_depend.analyse(facts, p, all_params=True, interest=interest, body=body)
         for c, g in pairs:
             n += 1
             dx = set(fl.seen.get(id(c), ())) - {"self"}
@@ -560,25 +560,22 @@ def run_absmod(facts, rep, files=None):
         if files is not None and it["file"] not in files:
             continue
         body = facts.hir[p]
-        tree = None
+        defs = Defs(body)
         sites = []
-        for x in walk(body):
-            if x.get("k") == "MCall" and x.get("name") in ("unsigned_abs", "abs") and not x["args"]:
-                lo = local_of(x["recv"])
-                if lo and facts.ty(x["recv"]).lstrip("&") in SIGNED:
-                    tree = tree or Tree(body)
-                    red = None
-                    for a in tree.ancestors(x):
-                        if a.get("k") in ("Call", "MCall") and ((callee(a) or {}).get("name") or a.get("name")) in REDUCE:
-                            red = a
-                            break
-                        if a.get("k") == "Bin" and a.get("op") == "%":
-                            red = a
-                            break
-                        if a.get("k") in ("Let", "Semi", "Expr", "Block"):
-                            break
-                    if red is not None:
-                        sites.append((x, lo, red))
+        seen = set()
+        for r in walk(body):
+            is_red = (r.get("k") in ("Call", "MCall") and ((callee(r) or {}).get("name") or r.get("name")) in REDUCE) or \
+                (r.get("k") == "Bin" and r.get("op") == "%")
+            if not is_red:
+                continue
+            operands = ([r["recv"]] if r.get("k") == "MCall" else []) + r.get("args", []) if r.get("k") != "Bin" else [r["a"]]
+            for o in operands:
+                for x in defs.closure(o):
+                    if x.get("k") == "MCall" and x.get("name") in ("unsigned_abs", "abs") and not x["args"] and id(x) not in seen:
+                        lo = local_of(x["recv"])
+                        if lo and facts.ty(x["recv"]).lstrip("&") in SIGNED:
+                            seen.add(id(x))
+                            sites.append((x, lo, r))
         for k, (x, lo, red) in enumerate(sites):
             n += 1
             rep.fn(p)
